@@ -1353,6 +1353,7 @@ Proof. exact class_same_path_s. Qed.
 Print Assumptions C01_eq_same_path_s.
 
 (* ===== every base, every reference (task c01asm) ===== *)
+From RU Require Import Proofs.C01_EqShape.
 (* base_shape_ok sb: a special non-file record is not opaque and has a host (true of every parse result);
    same_scheme_bare sb input: the reference is "sch:" + nothing / "?..." / "#..." with sch the special scheme of the
    base - the one shape outside Known_C01 that is in no proved class (stated, not proved; the differential
@@ -1437,3 +1438,64 @@ Example C01_same_scheme_nonvacuous :
   | _, _ => False
   end.
 Proof. vm_compute. repeat split. Qed.
+
+(* ===== the closed statement (task c01asm) ===== *)
+(* base_shape_ok holds of every record the Standard returns in the proved classes when the base record met
+   it; so full_base = good_base + base_shape_ok is closed under the assembled theorem: *)
+Theorem C01_class3_result_shape : forall shp,
+  (forall input su, in_proved_nobase3 input = true ->
+     spec_basic_url_parse shp input None = BDone su -> base_shape_ok su = true)
+  /\ (forall input sb su, usv_list input -> spec_valid sb -> base_shape_ok sb = true ->
+        in_proved_class3 (Some sb) input = true ->
+        spec_basic_url_parse shp input (Some sb) = BDone su -> base_shape_ok su = true).
+Proof. intros shp. split; [exact (nobase_result_shape shp) | exact (base_result_shape shp)]. Qed.
+Print Assumptions C01_class3_result_shape.
+
+(* C01_statement, all of it that is proved, in one theorem.  For base = None, or a pair in full_base = `related`
+   + spec_base_ok + base_shape_ok: every scalar-value input outside Known_C01 that is not a bare same-scheme
+   reference ("sch:", "sch:?..", "sch:#.." with sch the special scheme of the base) -
+   the Standard succeeds -> its record meets spec_base_ok, and the model answers Overflow with the Standard's href
+   beyond u32::MAX bytes or succeeds with a `related` record (same ten API strings);  the Standard fails -> the
+   model returns Err;  and a successful pair of results is a full_base pair again (so the theorem covers
+   everything reachable from parse results by resolving references).  Host functions abstract with the
+   one-string hypothesis host_hyp3. *)
+Theorem C01_statement_all : forall dbg hp hpo hd shp shs input base sbase,
+  usv_list input -> full_rel dbg shs base sbase -> not_bare sbase input -> known_c01 base input = 0 ->
+  host_hyp3 hp hpo hd shp shs sbase input ->
+  agree_good dbg shs (parse_url dbg hp hpo hd None base input) (spec_basic_url_parse shp input sbase)
+  /\ (forall su u, spec_basic_url_parse shp input sbase = BDone su -> parse_url dbg hp hpo hd None base input = POk u ->
+        full_base dbg shs u su).
+Proof. exact statement_all. Qed.
+Print Assumptions C01_statement_all.
+
+(* the same for the parser model with the host model plugged in against the Standard's parser with the
+   Standard's host parser: relative to IdnaOK idna ONLY *)
+Theorem C01_statement_all_model : forall dbg idna, IdnaOK idna -> forall input base sbase,
+  usv_list input -> full_rel dbg spec_host_serializer base sbase -> not_bare sbase input -> known_c01 base input = 0 ->
+  agree_good dbg spec_host_serializer
+    (parse_url dbg (host_parse idna) host_parse_opaque host_display None base input)
+    (spec_basic_url_parse (spec_host_parser idna) input sbase)
+  /\ (forall su u, spec_basic_url_parse (spec_host_parser idna) input sbase = BDone su ->
+        parse_url dbg (host_parse idna) host_parse_opaque host_display None base input = POk u ->
+        full_base dbg spec_host_serializer u su).
+Proof. exact statement_all_model. Qed.
+Check C01_statement_all_model : forall dbg idna, IdnaOK idna -> forall input base sbase,
+  usv_list input ->
+  match base, sbase with
+  | None, None => True
+  | Some b, Some sb => (related dbg spec_host_serializer b sb /\ spec_base_ok sb = true) /\ base_shape_ok sb = true
+  | _, _ => False
+  end ->
+  match sbase with Some sb => same_scheme_bare sb input = false | None => True end ->
+  known_c01 base input = 0 ->
+  let m := parse_url dbg (host_parse idna) host_parse_opaque host_display None base input in
+  match spec_basic_url_parse (spec_host_parser idna) input sbase with
+  | BDone su => spec_base_ok su = true
+                /\ ((m = PErr Overflow /\ U32_MAX_P < nlen (get_href spec_host_serializer su))
+                    \/ exists u, m = POk u /\ related dbg spec_host_serializer u su)
+  | BFailure _ => exists e, m = PErr e
+  | BOutOfFuel => False
+  end
+  /\ (forall su u, spec_basic_url_parse (spec_host_parser idna) input sbase = BDone su -> m = POk u ->
+        (related dbg spec_host_serializer u su /\ spec_base_ok su = true) /\ base_shape_ok su = true).
+Print Assumptions C01_statement_all_model.
